@@ -63,7 +63,10 @@ def split_problems(part_name, parent, kids, dim):
                     b2.append(("C02:child_not_contained_in_parent", {"child": iv, "parent": pd[j]}))
             if part_name in C.EQUAL_SIZE and not b2:
                 w = (pd[j][1] - pd[j][0]) / len(kids)
-                tol = 4 * float(np.spacing(max(abs(pd[j][0]), abs(pd[j][1]), abs(w))))
+                # rounding of the end points (4 ulp at their magnitude) plus the rounding of the step w, which
+                # np.linspace multiplies by i <= K (matters only for subnormal widths, where ulp(w) is not << w)
+                tol = 4 * float(np.spacing(max(abs(pd[j][0]), abs(pd[j][1]), abs(w)))) + len(kids) * float(
+                    np.spacing(abs(w)))
                 for iv in ivs:
                     if abs((iv[1] - iv[0]) - w) > tol:
                         b2.append(("C02:children_of_equal_size_partition_differ_in_width",
